@@ -33,7 +33,8 @@ func init() {
 				"C01-R3": "at most one write event per ResponseWriter parameter on every path",
 				"C01-R4": "DoQ and DoH glue: one answer per request, from this request's recorder (SERVFAIL / HTTP 500 when nothing was written, HTTP 400 for undecodable requests)", "C01-R5": "defer handlePanicAndRecover dominates serving",
 				"C01-R6": "a request context handed to a worker closure is cancelled only by the worker",
-				"C01-R7": "responses rebuilt from cached messages are initialised from this request (SetReply/SetRcode)",
+				"C01-R7": "responses rebuilt from stored messages are initialised from this request (SetReply/SetRcode)",
+				"C01-R8": "response caches store copies and hand out copies", "C01-R9": "the worker pool cannot refuse work (non-blocking implies unbounded)",
 			},
 		}})
 }
@@ -680,38 +681,47 @@ func runC01(c *an.Ctx) {
 	}
 
 	// ---- R7: a response rebuilt from a stored message takes its ID and question from this request
-	c.Floor("C01-R7", 2)
-	for _, k := range []string{"dnsserver/cache.(*Middleware).fromCacheItem", "ecscache.fromCacheItem"} {
-		fn := c.Fn(k)
-		if fn == nil {
-			c.Und("C01-R7", k, token.NoPos, "anchor not found")
+	c.Floor("C01-R7", 3)
+	sharedReplyInit(c, "C01-R7")
+
+	// ---- R8: the response caches store copies, so what a client receives is what the pipeline produced for its question
+	c.Floor("C01-R8", 4)
+	c07Caches(c, "C01-R8")
+
+	// ---- R9: submitting a query to the worker pool cannot fail under load: a non-blocking pool must be unbounded,
+	// because the accept loops treat a submit error as fatal for the listener
+	c.Floor("C01-R9", 1)
+	for _, fn := range c.FnsMatching("dnsserver.") {
+		if c.IsTestFile(fn.Pos()) {
 			continue
 		}
-		c.Analysed(k)
-		var reqParam ssa.Value
-		for _, pa := range fn.Params {
-			if pa.Name() == "req" || (reqParam == nil && an.TypeName(pa.Type()) == "github.com/miekg/dns.Msg") {
-				if an.TypeName(pa.Type()) == "github.com/miekg/dns.Msg" {
-					reqParam = pa
-				}
-			}
-		}
-		ok := false
-		for _, r := range an.Returns(fn) {
-			if len(r.Results) != 1 {
+		for _, call := range an.Calls(fn) {
+			if !strings.HasSuffix(an.CalleeName(call), "ants/v2.NewPool") {
 				continue
 			}
-			ret := r.Results[0]
-			for _, call := range an.CallsTo(fn, "(*github.com/miekg/dns.Msg).SetReply", "(*github.com/miekg/dns.Msg).SetRcode") {
-				args := call.Common().Args
-				if len(args) >= 2 && args[0] == ret && args[1] == reqParam && an.Dominates(call, r) {
-					ok = true
+			c.Analysed(an.FnKey(fn))
+			size, isConst := an.ConstInt(call.Common().Args[0])
+			// is the pool non-blocking?
+			nonblocking := false
+			an.Instrs(fn, func(in ssa.Instruction) {
+				if st, ok := in.(*ssa.Store); ok {
+					if _, f, _, ok := an.FieldOf(st.Addr); ok && f == "Nonblocking" {
+						if k, isK := st.Val.(*ssa.Const); isK && k.Value != nil && k.Value.String() == "true" {
+							nonblocking = true
+						}
+					}
 				}
+			})
+			key := an.FnKey(fn) + " worker pool"
+			switch {
+			case !nonblocking:
+				c.Ok("C01-R9", key, call.Pos(), "blocking pool: Submit waits instead of failing")
+			case isConst && size <= 0:
+				c.Ok("C01-R9", key, call.Pos(), "non-blocking and unbounded: Submit cannot fail with an overload error")
+			default:
+				c.Bad("C01-R9", key, call.Pos(), "the worker pool is non-blocking and bounded: under a burst Submit fails, the accept loop returns that error and the listener goes down")
 			}
 		}
-		c.Check(ok, "C01-R7", k, fn.Pos(),
-			"the returned message is initialised with SetReply/SetRcode from this request (ID, question, opcode)",
-			"the message rebuilt from the cache is not initialised from this request with SetReply/SetRcode: its ID or question can be those of the request that filled the cache")
 	}
 }
 
